@@ -186,6 +186,8 @@ def check(prog, rep):
     r4 = rep.rule("R4", "pKa-table keys the consumer looks up can be produced by the producer", floor=3)
     check_keys(prog, model, loop, r4)
     check_value_flow(prog, rep, fi, loop)
+    from . import shared
+    shared.rule_patch_isolation(prog, rep, "R6")
 
 
 def check_value_flow(prog, rep, fi, loop):
